@@ -38,7 +38,8 @@ class C01(Prop):
     case_type = "Capture.case"
     verdict = "Capture.verdict"
     shard = 150
-    rule = ("entry points calculate_capture / integral / ReceptorEstimator.capture; filter rank x signal rank in {1,2,3}^2 "
+    rule = ("(domains also rescaled by 2^-30, 2^-20, 2^20: same grid in other length units; three inputs with > 4 million product elements are compared with a numpy reference, (T)) "
+            "entry points calculate_capture / integral / ReceptorEstimator.capture; filter rank x signal rank in {1,2,3}^2 "
             "(batch sizes 1..3 incl. size-1 broadcasting), 1..4 filters, 1..4 signals, 1..12 (thorough 40) domain points, "
             "domain = scalar step | uniform array | non-uniform ascending array, trapz True/False; dyadic values "
             "(exact in float, rtol 1e-12) and arbitrary doubles (rtol 1e-9). non-trivial = (>=2 signals and >=2 filters "
@@ -58,7 +59,8 @@ class C01(Prop):
             nd = rng.randint(1, ndmax) if rng.random() < 0.9 else rng.randint(1, 2)
             def val():
                 return rng.uniform(-5, 5) if arb else dyad(rng, -8, 8, 16)
-            dk = rng.choice(["dx", "dx", "uniform", "nonuniform"])
+            dk = rng.choice(["dx", "dx", "uniform", "nonuniform", "nonuniform"])
+            fine = dk == "nonuniform" and rng.random() < 0.5
             if dk == "dx":
                 domain = rng.uniform(0.1, 10) if arb else rng.choice([0.25, 0.5, 1.0, 2.0, 5.0, 10.0, 0.125, 3.0])
             elif dk == "uniform":
@@ -67,16 +69,25 @@ class C01(Prop):
             else:
                 pts = sorted(rng.sample(range(0, 4000), nd))
                 domain = [p / 8 for p in pts]
-                if arb:
+                if fine:
+                    # spectrometer-like grid: irregular steps of 0.5 .. 3 units
+                    x0 = dyad(rng, 300, 400, 4); domain = [x0]
+                    for _ in range(nd - 1):
+                        domain.append(domain[-1] + rng.choice([0.5, 1.0, 1.5, 2.0, 3.0]))
+                elif arb:
                     domain = sorted(set(rng.uniform(300, 700) for _ in range(nd)))
                     while len(domain) < nd:
                         domain = sorted(set(domain) | {rng.uniform(300, 700)})
+            # physical units are arbitrary: the same grid in metres / picometres (exact power-of-two rescaling)
+            dscale = rng.choice([1.0] * 6 + [2.0 ** -30, 2.0 ** -20, 2.0 ** 20])
+            if dscale != 1.0:
+                domain = [v * dscale for v in domain] if isinstance(domain, list) else domain * dscale
             trapz = rng.random() < 0.7
             entry = rng.choice(["calculate_capture"] * 6 + ["integral"] * 2 + ["estimator"] * 2)
             nf, ns = rng.randint(1, 4), rng.randint(1, 4)
             def mk(shape):
                 return np.array([val() for _ in range(int(np.prod(shape)))]).reshape(shape).tolist()
-            c = {"entry": entry, "domain": domain, "trapz": trapz, "dkind": dk, "arb": arb}
+            c = {"entry": entry, "domain": domain, "trapz": trapz, "dkind": dk, "arb": arb, "dscale": dscale}
             if entry == "calculate_capture":
                 rf, rs = rng.choice([1, 2, 2, 3]), rng.choice([1, 2, 2, 3])
                 bf = rng.randint(1, 3); bs = rng.choice([bf, bf, 1, rng.randint(1, 3)])
@@ -198,6 +209,42 @@ class C01(Prop):
                 return {"what": "%s entry %s = %r but the integral of signal x filter is %r" % (case["entry"], idx, float(g), float(w)),
                         "class": "value", "required": float(w), "observed": float(g)}
         return None
+
+    # (T) sizes far beyond what the Coq VM can evaluate: the same rule against a plain numpy reference (size-dependent code paths)
+    def extra_checks(self, ctx):
+        import dreye
+        rs = np.random.default_rng(int(ctx.get("seed", 0)) + 17)
+        bad = []; n = 0
+        for (fs, ss, nd, dom_kind) in [((4,), (3907,), 277, "array"), ((3, 2), (3, 2503), 141, "dx"), ((5,), (1, 4099), 211, "array")]:
+            F = rs.uniform(0, 1, fs + (nd,)); S = rs.uniform(0, 1, ss + (nd,))
+            dom = np.cumsum(rs.uniform(0.5, 2.0, nd)) + 300 if dom_kind == "array" else 0.75
+            w = np.zeros(nd); dx = np.diff(dom) if dom_kind == "array" else np.full(nd - 1, dom); w[:-1] += dx / 2; w[1:] += dx / 2
+            for trapz in (True, False):
+                wt = w if trapz else np.full(nd, dom if dom_kind == "dx" else np.nan)
+                if not trapz and dom_kind == "array":
+                    continue
+                n += 1
+                try:
+                    got = np.asarray(dreye.calculate_capture(F, S, domain=dom, trapz=trapz), dtype=float)
+                except Exception as e:  # noqa
+                    bad.append({"class": "large:raises:%s" % type(e).__name__, "what": "calculate_capture on filters %s, signals %s raised %s" % (F.shape, S.shape, e), "payload": {}, "found": True}); continue
+                want = np.einsum("...sd,...fd,d->...sf", S, F, wt) if F.ndim == S.ndim else np.einsum("...sd,fd,d->...sf", S, F, wt)
+                if got.shape != want.shape or np.max(np.abs(got - want)) > 1e-9 * (1 + np.max(np.abs(want))):
+                    k = np.unravel_index(np.argmax(np.abs(got - want)), want.shape) if got.shape == want.shape else None
+                    bad.append({"class": "large:value", "what": "calculate_capture on filters %s, signals %s (trapz=%s): entry %s = %r but the integral is %r" % (
+                        F.shape, S.shape, trapz, k, None if k is None else float(got[k]), None if k is None else float(want[k])),
+                                "payload": {"shapes": [list(F.shape), list(S.shape)], "seed": int(ctx.get("seed", 0)) + 17}, "found": True})
+        ctx["large_n"] = n; ctx["large_bad"] = len(bad)
+        return bad
+
+    def extra_obligations(self, ctx):
+        return ctx.get("large_n", 0)
+
+    def extra_failed(self, ctx):
+        return ctx.get("large_bad", 0)
+
+    def extra_coverage(self, ctx):
+        return {"large_inputs_vs_numpy_reference (T)": ctx.get("large_n", 0)}
 
     def nontrivial(self, case, out):
         F_, S_ = np.array(case["F"]), np.array(case["S"])
